@@ -82,8 +82,8 @@ def pred_f22(case, record, exp=None):
     return any(c["res"] == 4 for c in calls)
 
 
-BITS = [(1, "F16"), (4, "F21"), (8, "F22")]   # bit 2 was F17 (fixed in /repo 60d9770; the model no longer deviates there)
-PRED_BY_ID = {"F16": pred_f16, "F21": pred_f21, "F22": pred_f22}
+BITS = []   # F16, F17, F21, F22 are all fixed in /repo: the model is the repaired algorithm, every disagreement is a violation
+PRED_BY_ID = {}
 
 
 # ---------------------------------------------------------------------------------------------------
@@ -271,10 +271,9 @@ CFG = {
              "2 faults (JS throw, GoError, foreign Go panic, Interrupt, deep recursion) at the k-th probe(); after EACH call "
              "VerifIdle, the register vector at every probe(), the effect log and the result class are compared with the "
              "model; non-trivial = some call ended abruptly; distinct = by hash of the case"),
-    "theorem_names": ["idle_restored_partial", "idle_restored", "history_idle", "nested_entry_restored",
+    "theorem_names": ["idle_restored_partial", "idle_restored", "idle_restored_jobs", "history_idle", "nested_entry_restored",
                       "next_run_equivalent", "handleThrow_restores", "handleThrow_idem", "uncatchable_never_caught",
-                      "handleThrow_shrinks", "idle_refuted_F16", "idle_refuted_F16_overflow", "idle_refuted_F22",
-                      "nested_refuted_F21", "idle_F17_repaired"],
+                      "handleThrow_shrinks", "former_findings_repaired"],
     "allowed_axioms": [],
     "trusted_base": [
         "Coq 8.16.1 kernel + vm_compute (no native_compute); theorems closed under the global context (no axioms)",
@@ -289,7 +288,7 @@ CFG = {
         "a native function always re-panics an uncatchable error returned to it by Callable/RunString",
         "the implementation is tied to the model only on the generated histories (correspondence), not by proof",
     ],
-    "predicates": {"C03.f16": pred_f16, "C03.f21": pred_f21, "C03.f22": pred_f22},
+    "predicates": {},
     "manifest": {
         "text": ("proof: for every execution tree (JS frames, native frames calling back through Callable / accessor Get / "
                  "re-entrant RunProgram / Try / ForOf, try regions, iterator regions, generator and async resumptions, promise "
